@@ -252,6 +252,25 @@ pub fn check_labels(text: &str, planted: &Planted, gates: &Gates) -> Result<bool
             label_in_text(s, text, file).map_err(|e| ("label-outside-file".to_string(), format!("{} secondary: {}", d.code, e)))?;
         }
     }
+    // a diagnostic that says which name it is about (name= / variable= / identifier= in its
+    // description) and whose primary label is one word: the word is that name
+    for d in &ds {
+        if d.code == "P9999" {
+            continue;
+        }
+        let (s, e) = (d.primary.location.start, d.primary.location.end);
+        let covered = &text[s..e];
+        if covered.is_empty() || !covered.bytes().all(|c| c.is_ascii_alphanumeric() || c == b'_') {
+            continue;
+        }
+        for item in &d.described {
+            if let Some((k, v)) = item.split_once('=') {
+                if (k == "name" || k == "variable" || k == "identifier") && !v.is_empty() && v.bytes().all(|c| c.is_ascii_alphanumeric() || c == b'_') && !covered.eq_ignore_ascii_case(v) {
+                    return Err(("label-wrong-construct".into(), format!("{} says {}={} but its primary label {}..{} covers {:?}", d.code, k, v, s, e, covered)));
+                }
+            }
+        }
+    }
     let want = planted.kind.code();
     let d = match ds.iter().find(|d| d.code == want) {
         Some(d) => d,
@@ -787,6 +806,101 @@ pub fn check_clash_shown(files: &[(String, String)]) -> Result<bool, (String, St
     Ok(true)
 }
 
+/// generic label oracles over a set of files: every label of every diagnostic names a file of the
+/// set, is a range of it on character and word boundaries, and a one-word primary label is the name
+/// the description states (name= / variable= / identifier=)
+pub fn check_set_labels(files: &[(String, String)]) -> Result<usize, (String, String)> {
+    let mut libs = vec![];
+    for (f, text) in files {
+        match crate::panicx::catch(|| parse_program(text, &FileId::from_string(f), &ParseOptions::default())) {
+            Ok(Ok(l)) => libs.push(l),
+            _ => return Ok(0),
+        }
+    }
+    let refs: Vec<&ironplc_dsl::common::Library> = libs.iter().collect();
+    let ds = match crate::panicx::catch(|| analyze(&refs)) {
+        Ok(Err(ds)) => ds,
+        _ => return Ok(0),
+    };
+    let mut judged = 0;
+    for d in ds.iter().filter(|d| d.code != "P9999") {
+        for (which, l) in std::iter::once(("primary", &d.primary)).chain(d.secondary.iter().map(|l| ("secondary", l))) {
+            let fname = l.file_id.to_string();
+            let text = match files.iter().find(|(f, _)| *f == fname) {
+                Some((_, t)) => t,
+                None => return Err(("label-file".into(), format!("{}: the {} label {:?} names the file {:?}, which is none of the files of the set", d.code, which, l.message, fname))),
+            };
+            let (s, e) = (l.location.start, l.location.end);
+            if s > e || e > text.len() || !text.is_char_boundary(s) || !text.is_char_boundary(e) {
+                return Err(("label-range".into(), format!("{}: the {} label {}..{} is not a range of {:?} ({} bytes)", d.code, which, s, e, fname, text.len())));
+            }
+            label_on_word_boundaries(s, e, text).map_err(|m| ("label-range".to_string(), format!("{}: {} label: {}", d.code, which, m)))?;
+            if which == "primary" {
+                let covered = &text[s..e];
+                if !covered.is_empty() && covered.bytes().all(|c| c.is_ascii_alphanumeric() || c == b'_') {
+                    for item in &d.described {
+                        if let Some((k, v)) = item.split_once('=') {
+                            if (k == "name" || k == "variable" || k == "identifier") && !v.is_empty() && v.bytes().all(|c| c.is_ascii_alphanumeric() || c == b'_') {
+                                if !covered.eq_ignore_ascii_case(v) {
+                                    return Err(("label-wrong-construct".into(), format!("{} says {}={} but its primary label {}..{} of {:?} covers {:?}", d.code, k, v, s, e, fname, covered)));
+                                }
+                                judged += 1;
+                            }
+                        }
+                    }
+                }
+            }
+        }
+    }
+    Ok(judged)
+}
+
+/// (h) references that end nowhere, reached through a chain: an enumeration alias chain of 0..3
+/// links (`A : B := v;`) whose last link names an enumeration that is declared nowhere, a variable
+/// typed with the head of the chain; one file or two (types / use), declarations in either order,
+/// LF or CRLF, a non-ASCII comment in front.  Judged by the generic label oracles.
+fn chain_grid(rep: &mut Report) {
+    let mut o = crate::runner::Outcome { stats: Stats::default(), failures: vec![] };
+    let names = ["LEVEL_ALIAS", "OUTER", "Colour_2", "MISSING_ENUM"];
+    for links in 0..=3usize {
+        for order in 0..2 {
+            for two_files in [false, true] {
+                for style in 0..3 {
+                    // chain: names[0] : names[1] := v; ... names[links-1] : MISSING := v;
+                    let chain: Vec<String> = (0..links).map(|i| format!("{} : {} := lo_v;", names[i], if i + 1 == links { "MISSING_ENUM" } else { names[i + 1] })).collect();
+                    let mut decls = chain.clone();
+                    if order == 1 {
+                        decls.reverse();
+                    }
+                    let head = if links == 0 { "MISSING_ENUM" } else { names[0] };
+                    let types = if decls.is_empty() { String::new() } else { format!("TYPE\n{}\nEND_TYPE\n", decls.join("\n")) };
+                    let usage = format!("PROGRAM chain_p\nVAR\nchain_x : {} := lo_v;\nEND_VAR\nEND_PROGRAM\n", head);
+                    let dress = |t: String| match style {
+                        0 => t,
+                        1 => format!("(* é ü *)\n\n{}", t).replace('\n', "\r\n"),
+                        _ => format!("   (* c *) {}", t),
+                    };
+                    let files: Vec<(String, String)> = if two_files {
+                        if types.is_empty() {
+                            continue;
+                        }
+                        vec![("a_types.st".to_string(), dress(types)), ("b_use.st".to_string(), dress(usage))]
+                    } else {
+                        vec![("one.st".to_string(), dress(if order == 0 { format!("{}{}", types, usage) } else { format!("{}{}", usage, types) }))]
+                    };
+                    o.stats.case(true, hash_str(&format!("{:?}", files)));
+                    match check_set_labels(&files) {
+                        Ok(0) => o.stats.class("h.chain.not-judged"),
+                        Ok(_) => o.stats.class(&format!("h.chain.judged.links{}", links)),
+                        Err((k, d)) => o.failures.push((Failure::new("set-labels", &k, d, json!({"files": files})), vec![])),
+                    }
+                }
+            }
+        }
+    }
+    rep.add(o);
+}
+
 fn clash_forms(name: &str, tag: &str) -> Vec<(&'static str, String)> {
     vec![
         ("enum", format!("TYPE\n{} : (v1_{t}, v2_{t});\nEND_TYPE\n", name, t = tag)),
@@ -954,6 +1068,7 @@ pub fn run(ctx: &Ctx) -> i32 {
     }
     large_positions(&mut rep);
     clash_grid(&mut rep);
+    chain_grid(&mut rep);
     rep.replay_witnesses(&ctx.findings, &|w| witness(w, &Gates::all_on()));
     rep.extra.insert("gates_off".into(), json!(off));
     rep.assumptions = vec![
@@ -994,6 +1109,10 @@ pub fn replay(ctx: &Ctx, v: &Value) -> i32 {
         "tokens-tile" => check_tiling(text).map_err(|(k, d)| format!("{}: {}", k, d)),
         "witness" => witness(&v["inputs"], &Gates::all_on()),
         "shown-error-position" => check_shown_error_position(text).map(|_| ()).map_err(|(k, d)| format!("{}: {}", k, d)),
+        "set-labels" => {
+            let files: Vec<(String, String)> = v["inputs"]["files"].as_array().cloned().unwrap_or_default().iter().map(|p| (p[0].as_str().unwrap_or("").to_string(), p[1].as_str().unwrap_or("").to_string())).collect();
+            check_set_labels(&files).map(|_| ()).map_err(|(k, d)| format!("{}: {}", k, d))
+        }
         "clash-shown" => {
             let files: Vec<(String, String)> = v["inputs"]["files"].as_array().cloned().unwrap_or_default().iter().map(|p| (p[0].as_str().unwrap_or("").to_string(), p[1].as_str().unwrap_or("").to_string())).collect();
             check_clash_shown(&files).map(|_| ()).map_err(|(k, d)| format!("{}: {}", k, d))
